@@ -124,7 +124,8 @@ EvalSeq(es, env, d, acc) ==
   ELSE LET r == Eval(Head(es), env, d) IN
        IF IsE(r.v) THEN r ELSE EvalSeq(Tail(es), r.env, d, Append(acc, r.v))
 
-NameIt(v, n) == IF IsFn(v) THEN [v EXCEPT !.name = n] ELSE v
+\* a function takes the name of the first binding it is given; binding it again (an alias) leaves it as it is
+NameIt(v, n) == IF IsFn(v) /\ v.name = "" THEN [v EXCEPT !.name = n] ELSE v
 
 \* statements of a do-block: direct assignments may shadow (no visibility check), other statements are plain
 EvalDo(ss, r, env, d) ==
